@@ -4,12 +4,15 @@ PROP = dict(
     title="Values are rendered as text exactly as documented",
     lean_module="AbraProofs.Properties.C28",
     required_theorems=["C28_str_eq_render", "C28_helper_eq_join", "C28_format_append_spec", "C28_print_spec",
-                       "C28_array_shape", "C28_string_verbatim", "C28_format_chain_spec", "C28_rendering_is_pure"],
+                       "C28_array_shape", "C28_string_verbatim", "C28_format_chain_spec", "C28_rendering_is_pure", "C28_foreign_leaf_spliced"],
     harness_bin="c28",
     mismatch_is_violation=True,
     rule="directed: 14 boundary ints (incl. MIN, MAX, +-2^32), 14 strings (empty, separators ', ' '[ ]' '(1, 2)', newline, tab, quote, backslash, "
          "non-ASCII), bools, nil, each alone and inside array (0/1/3 elements, nested with empty inner arrays), option, result (ok and err side), "
-         "2/3/4-tuples; ints and strings also as literal operands of `..` (inlined str); random: 1500 (quick) / 20000 (thorough) values of random nested "
+         "2/3/4-tuples; ints and strings also as literal operands of `..` (inlined str); leaves of types outside the built-in nest, rendered by "
+         "their own str and spliced into the built-in containers: 12 floats (incl. -0.0, 1e21 and 1.5e-7 spelled as decimals, 17-digit values; also `let s = x.str()` and "
+         "`string_from_float(x)` into a local), a user struct with `implement ToString`, a `channel<int>` with `implement ToString for channel<T>`; "
+         "the mode `let s = v.str(); print(s)` (conversion result stored straight into a local); random: 1500 (quick) / 20000 (thorough) values of random nested "
          "types of depth <= 3 / 4 (array, tuple 2-4, option, result over int/bool/void/string, arrays of 0-6 elements), rendered through print, println, "
          "ToString.str, `\"<< \" .. v`, `v .. \" >>\"` and `v .. w`; purity stream: 5 minimal + 400 (quick) / 4000 (thorough) programs that build 2-4 strings at run time "
          "(results of `..`, int and bool conversions, strings built from other run-time strings incl. as LEFT operand), share the same string object "
@@ -25,7 +28,9 @@ PROP = dict(
         "the step from the Abra source to the model is checked by correspondence, not proved (two-way tie: model vs. real VM)",
         "concat_strings is assumed to be string concatenation (C17)",
     ],
-    assumptions=["floats are excluded (their text is Rust's f64::to_string)",
+    assumptions=["the text of a float is Rust's f64::to_string (trusted like i64::to_string); floats, values of user types and channels with a user ToString impl enter the "
+                 "model as leaves `ext text` carrying the text their own str yields (computed by the harness), so for them the model and the oracle fix how the "
+                 "built-in containers splice that text in, not the text itself",
                  "the documentation is silent about the empty array; the code prints `[  ]` (two spaces) and the specification follows the code"],
     design_ref="DESIGN.md §6 C28",
     level_text="Theorem over all values of the nested built-in types (any depth and size): the prelude's ToString code, as modelled, produces exactly "
